@@ -319,6 +319,37 @@ func (c *Check) keyLayoutsRule(rule string, rels []string, minScoped, minKind in
 			kl := builders[n]
 			c.Analysed(fnName(kl.fn))
 			c.Ob(rule, rel+"."+n+": key layout is decidable", kl.fn.Pos(), kl.ok && len(kl.segs) > 0 && kl.segs[0].kind == "const", "layout "+layoutString(kl.segs)+" "+kl.why)
+			// the key names the record: every field of each id it is built from appears, once
+			for _, prm := range kl.fn.Params {
+				st, ok := prm.Type().Underlying().(*types.Struct)
+				if !ok || !kl.ok || len(kl.segs) == 0 {
+					continue
+				}
+				cnt := map[string]int{}
+				for _, sg := range kl.segs {
+					if sg.field != "" {
+						cnt[sg.field]++
+					}
+				}
+				missing, twice := "", ""
+				for i := 0; i < st.NumFields(); i++ {
+					f := st.Field(i).Name()
+					if cnt[f] == 0 {
+						missing += f + " "
+					}
+					if cnt[f] > 1 {
+						twice += f + " "
+					}
+				}
+				why := ""
+				if missing != "" {
+					why = "key omits " + missing + "of " + prm.Type().String() + ": records that differ only there share one key (they overwrite / delete each other)"
+				}
+				if twice != "" {
+					why += " field written twice: " + twice
+				}
+				c.Ob(rule, rel+"."+n+": key carries every field of "+shortName(prm.Type().String())+" exactly once", kl.fn.Pos(), missing == "" && twice == "", why)
+			}
 		}
 		// uses as iterator prefixes
 		used := map[string]bool{}
@@ -412,7 +443,14 @@ func (c *Check) keyLayoutsRule(rule string, rels []string, minScoped, minKind in
 			}
 		}
 	}
-	if nscoped < minScoped || nkind < minKind {
+	// a layout that could not be decided is reported as such; only an otherwise clean run can have lost instances
+	undecided := false
+	for _, o := range c.Obs {
+		if !o.OK && !o.Info && strings.Contains(o.Instance, "key layout is decidable") {
+			undecided = true
+		}
+	}
+	if !undecided && (nscoped < minScoped || nkind < minKind) {
 		c.Fail("%s key-layout rule lost instances: scoped=%d kind=%d", rule, nscoped, nkind)
 	}
 }
